@@ -178,5 +178,20 @@ def oracle_restart_strategy(tr, configured):
     return v
 
 
+def oracle_spurious_refresh(tr):
+    """C07 / C11: the restart strategy runs only to serve a dequeued restart request - never after a handler timeout,
+    a message or anything else"""
+    v = []
+    last_pop = None
+    for e in tr:
+        if e[0] == 'chan_pop':
+            last_pop = str(e[2])
+        elif e[0] == 'refresh_call':
+            if last_pop != 'Restart':
+                v.append(f"the restart strategy ({e[1]}) ran although no restart request had been dequeued (last dequeued: {last_pop})")
+            last_pop = None
+    return v
+
+
 def outcome(tr):
     return tuple((e[3], str(e[4])) for e in tr if e[0] == 'op_end') + tuple(e[1] for e in tr if e[0] == 'user_call')
